@@ -472,6 +472,8 @@ FUNCS = {
     "x1.2": lambda v: v * 1.2, "x1/3": lambda v: v * (1 / 3), "const50": lambda v: 50, "const5": lambda v: 5, "const0": lambda v: 0,
     "neg": lambda v: -v, "tiny": lambda v: 1e-300 * v, "huge": lambda v: 1e300, "identity": lambda v: v, "const7.0": lambda v: 7.0,
     "int(v)": lambda v: int(v), "x10": lambda v: v * 10,
+    # every 5 becomes a 7, every 1 a 2: other values, written with exactly as many characters as before
+    "5to7": lambda v: float(repr(float(v)).replace("5", "7").replace("1", "2")),
 }
 
 
@@ -589,8 +591,16 @@ def _workload(tier, rng, shard, nshards, work):
             text = text.rstrip()  # no final line break (and no trailing blanks)
             REC.cls("C19:kg:no-final-line-break")
         fn = os.path.join(str(work), "syn%d.KlattGrid" % (k % 3))
-        with open(fn, "w", encoding="utf-8") as fd:
-            fd.write(text)
+        if k % 11 == 5:
+            # Praat's "text writing" preference set to UTF-16: the file starts with a byte order mark, of either byte order (the
+            # opener reads UTF-16 first and falls back to UTF-8)
+            bo = rng.choice(["le", "be"])
+            with open(fn, "wb") as fd:
+                fd.write((b"\xff\xfe" if bo == "le" else b"\xfe\xff") + text.encode("utf-16-" + bo))
+            REC.cls("C19:kg:utf-16-" + bo)
+        else:
+            with open(fn, "w", encoding="utf-8") as fd:
+                fd.write(text)
         nform = len(spec["oral"])
         _current.update(classes=["C19:praat-style-trailing-blank" if blank else "C19:praatio-style-no-trailing-blank"],
                         sig=("syn", blank, style, nform, len(spec["fric"]), tuple(min(len(p), 3) for p in spec["oral"] + spec["oral_bw"])))
@@ -636,9 +646,10 @@ def _workload(tier, rng, shard, nshards, work):
         if back is not None and k % 2 == 0:
             # the grid has been saved before: change values again, this time through the sub-tiers' own modifyValues, and save again
             REC.cls("C19:modify-directly-after-a-save")
-            f2 = rng.choice(["x1.2", "const7.0", "neg", "x10"])
+            f2 = rng.choice(["x1.2", "const7.0", "neg", "x10", "5to7", "5to7"])
             c2, i2 = rng.choice([("oral_formants", "formants"), ("oral_formants", "bandwidths"), ("frication_formants", "formants")])
-            modify(kg, c2, i2, f2, FUNCS[f2], work, k + 1, i2 == "bandwidths", direct=True)
+            # (every other time the second save goes to the file the first save wrote - same name, and with "5to7" the same size)
+            modify(kg, c2, i2, f2, FUNCS[f2], work, k + (k // 2) % 2, i2 == "bandwidths", direct=True)
         if k % 3 == 0:
             # the files read at the start of this round are still as they were: opening them again - after the grids read from them
             # have been edited in memory - gives what the files say
